@@ -154,6 +154,13 @@ SerdeClauses(e) ==
           Cl("C17.roundtrip_text", kn /\ Ok(e.text) /\ IsFin(a), Ok(e.back_text) /\ SameQty(e.back_text.ok, e.v)),
           Cl("C17.unit_roundtrip", kn /\ Ok(e.unit_tree), Ok(e.unit_back) /\ e.unit_back.ok = e.v.u) >>
 
+\* every DECLARED variant name is accepted by the unit type's deserialiser and denotes that unit
+\* ("units serialise as their variant names": the names the declaration fixes, not whatever the enum happens to use)
+SerdeNameClauses(e) ==
+    << Cl("C17.known", TRUE, KT(e.T)),
+       Cl("C17.declared_name_accepted", KT(e.T),
+              \A i \in DOMAIN e.accepted : Ok(e.accepted[i].out) /\ e.accepted[i].out.ok = e.accepted[i].name) >>
+
 ---------------------------------------------------------------------------
 (* C16  SI prefixes                                                        *)
 SIByExp(x)  == {i \in DOMAIN SITable : SITable[i].exp = x}
